@@ -79,11 +79,12 @@ type CheckCtx struct {
 
 // Unit is one piece of work of a check: a scenario explored to a bound, or an enumerator.
 type Unit struct {
-	Name   string
-	Sc     *Scenario
-	Bound  int
-	Enum   func(ctx *CheckCtx, shard, of int) *Stats // sequential enumerators
-	Budget time.Duration
+	Name    string
+	Sc      *Scenario
+	Bound   int
+	Enum    func(ctx *CheckCtx, shard, of int) *Stats // sequential enumerators
+	NoSched bool                                      // the enumerator builds its own schedulers
+	Budget  time.Duration
 }
 
 type Check struct {
@@ -196,7 +197,9 @@ func cmdShard(args []string) int {
 		ctx.Deadline = time.Unix(*deadline, 0)
 	}
 	var st *Stats
-	if u.Enum != nil {
+	if u.Enum != nil && u.NoSched {
+		st = u.Enum(ctx, *shard, *of)
+	} else if u.Enum != nil {
 		if pm := withSched(func() { st = u.Enum(ctx, *shard, *of) }); pm != "" {
 			if st == nil {
 				st = newStats()
